@@ -17,6 +17,14 @@ CHECKS = {
          "Every string of up to 7 (quick) / 8 (thorough) tokens over {a 1 : @ [ ] . %41 v (e-acute)} accepted by the reference authority DFA (this contains every IPv6/IPvFuture shape of that length combined with every user-info/port shape) plus the product of named user-info, host and port values, each stand-alone and embedded in three kinds of reference. Exhaustive inside the bound.",
          "Trusted: the 30-line authority splitting model and the reference DFAs. Hosts longer than the token bound are represented by the named product only.",
          "DESIGN.md section 6, C03"),
+ "C04": ("explicit-state breadth-first search over every safe mutator of every owned buffer type (transition = one real call on a real buffer; state = buffer text), invariant checked in every reached state",
+         "From Default, from_scheme and ~3000 structured initial buffers per family, every sequence of up to 2 (quick) / 3 (thorough) calls drawn from ~90 operations (5 setters incl. removal and every value needing disambiguation, 6 path edits via path_mut, 3 authority edits via authority_mut, in-place resolve against 7 bases; PathBuf's own edits) on RiRefBuf, RiBuf and PathBuf of both families; in every reached state: no panic, UTF-8, accepted by the checked constructor of the same type and by the reference DFA, and all accessors executed. Thorough explores 1.4 M states / 140 M transitions. De-duplication on text is exact (no handle survives a transition).",
+         "Trusted: the reference DFAs (validity oracle). Bounds: depth 2/3 from the initial set, texts cut at 40 bytes (counted), finite argument alphabet. Overflow checks are on (the configuration cargo test uses).",
+         "DESIGN.md section 6, C04"),
+ "C05": ("exhaustive sweep over (buffer, setter value) pairs against a frame model on the RFC 3986 decomposition",
+         "Every structured buffer (scheme x authority x PATH(2) x query x fragment, delimiter-bearing and 40/600-byte tails, colon-first paths) x every value of the five setters incl. removal and longer/equal/shorter replacements, on RiRefBuf and RiBuf of both families (2 M cases quick): the decomposition of the new text equals the old one with the targeted component replaced, up to the three documented path adjustments each accepted only under its documented precondition; result valid; accessors read back the same.",
+         "Trusted: the Appendix-B splitting model and the frame oracle c05_frame_ok (40 lines).",
+         "DESIGN.md section 6, C05"),
  "C09": ("exhaustive input-space sweep of all paths up to a segment bound (+ inline-buffer threshold paths), stand-alone and embedded in every kind of reference, against a stack-walk model cross-checked with a literal RFC 3986 5.2.4 transcription",
          "Every path over the structural segment alphabet up to 6 (quick) / 8 (thorough) segments and over the full alphabet up to 4/5, plus paths of 15..40 segments and 510..2000 bytes; for each: the normalized-segment iterator (both directions, length), the normalized copy (RFC rendering incl. trailing slash, idempotence), in-place normalisation stand-alone, and embedded in 12 reference contexts with frame check (scheme, authority, query, fragment unchanged, text valid). Exhaustive inside the bound.",
          "Trusted: the stack-walk model (30 lines) and its agreement with the literal 5.2.4 algorithm on absolute paths (checked on 5460 paths by selftest); rendering rules of DESIGN 5.3 (legal '.' shield, [\"\"] identified with the empty list unless shielded).",
